@@ -7,7 +7,8 @@ void simfs_reset(uint64_t seed);
 int  simfs_add_file(const char *path, const void *data, size_t len, int mode);   /* absolute path */
 int  simfs_add_dir(const char *path);
 void simfs_set_fdopen_read_failure(int mode);      /* 1: reading a temporary file back fails at once, 2: after half of it */
-int  simfs_add_dangling(const char *path);      /* listed by readdir() (DT_LNK), stat() fails with ENOENT */
+int  simfs_add_dangling(const char *path);
+int  simfs_add_looping_link(const char *path);   /* the same, stat() fails with ELOOP */      /* listed by readdir() (DT_LNK), stat() fails with ENOENT */
 int  simfs_exists(const char *path);
 int  simfs_mode(const char *path);
 void simfs_set_cwd(const char *path);
